@@ -3,14 +3,16 @@ import vlib
 import storelib
 
 WAL = '{"wal"}'
+# a crash in a log append also inside a write call: one byte, half, all but one byte of it reached the file
+PARTS = "{0, 1, 2, 3}"
 CFGS = {
-    "quick": [("c03-a", dict(WalSteps="TRUE", CrashAt=WAL, MaxStmts=3, MaxRows=3, MaxFlush=1, MaxCrash=1, Tables='{"t1"}'), None),
-              ("c03-b", dict(WalSteps="TRUE", CrashAt=WAL, MaxStmts=4, MaxRows=2, MaxFlush=0, MaxCrash=1, Tables='{"t1"}', Vals="{1}"), None),
+    "quick": [("c03-a", dict(WalSteps="TRUE", WalParts=PARTS, CrashAt=WAL, MaxStmts=3, MaxRows=3, MaxFlush=1, MaxCrash=1, Tables='{"t1"}'), None),
+              ("c03-b", dict(WalSteps="TRUE", WalParts=PARTS, CrashAt=WAL, MaxStmts=4, MaxRows=2, MaxFlush=0, MaxCrash=1, Tables='{"t1"}', Vals="{1}"), None),
               # a flush between statements, then a statement cut in its log append (page LSNs on disk vs record LSNs)
-              ("c03-d", dict(WalSteps="TRUE", CrashAt=WAL, MaxStmts=4, MaxRows=2, MaxFlush=1, MaxCrash=1, Tables='{"t1"}', Vals="{1}"), None)],
-    "thorough": [("c03-a", dict(EmitMod=2, WalSteps="TRUE", CrashAt=WAL, MaxStmts=4, MaxRows=3, MaxFlush=1, MaxCrash=1, Tables='{"t1"}'), 80000),
-                 ("c03-b", dict(EmitMod=2, WalSteps="TRUE", CrashAt=WAL, MaxStmts=5, MaxRows=4, MaxFlush=1, MaxCrash=2, Tables='{"t1"}', Vals="{1}"), 80000),
-                 ("c03-c", dict(WalSteps="TRUE", CrashAt='{"wal", "idle"}', MaxStmts=4, MaxRows=2, MaxFlush=1, MaxCrash=2, Tables='{"t1"}', Vals="{1}"), 60000)],
+              ("c03-d", dict(WalSteps="TRUE", WalParts=PARTS, CrashAt=WAL, MaxStmts=4, MaxRows=2, MaxFlush=1, MaxCrash=1, Tables='{"t1"}', Vals="{1}"), None)],
+    "thorough": [("c03-a", dict(EmitMod=2, WalSteps="TRUE", WalParts=PARTS, CrashAt=WAL, MaxStmts=4, MaxRows=3, MaxFlush=1, MaxCrash=1, Tables='{"t1"}'), 80000),
+                 ("c03-b", dict(EmitMod=2, WalSteps="TRUE", WalParts=PARTS, CrashAt=WAL, MaxStmts=5, MaxRows=4, MaxFlush=1, MaxCrash=2, Tables='{"t1"}', Vals="{1}"), 80000),
+                 ("c03-c", dict(WalSteps="TRUE", WalParts=PARTS, CrashAt='{"wal", "idle"}', MaxStmts=4, MaxRows=2, MaxFlush=1, MaxCrash=2, Tables='{"t1"}', Vals="{1}"), 60000)],
 }
 
 
@@ -34,10 +36,11 @@ def run(ctx):
         if agg["crash_in_log"] == 0:
             raise vlib.Undecided("vacuous: no crash inside a log append in the random runs")
         if not ctx.quick():
-            storelib.design_only(ctx, "big", dict(WalSteps="TRUE", CrashAt='{"wal", "idle"}', MaxStmts=5, MaxRows=3, MaxFlush=1, MaxCrash=2, Tables='{"t1"}', Vals="{1, 2}"), cov, timeout=300)
+            storelib.design_only(ctx, "big", dict(WalSteps="TRUE", WalParts=PARTS, CrashAt='{"wal", "idle"}', MaxStmts=5, MaxRows=3, MaxFlush=1, MaxCrash=2, Tables='{"t1"}', Vals="{1, 2}"), cov, timeout=300)
     finally:
         pool.close()
-    for f in ("crash-wal-len", "crash-wal-body", "crash-wal-sync", "torn-tail", "recover"):
+    cov["random_runs_crash_in_log"] = dict(at_call_boundary_or_inside=agg["crash_in_log"], inside_a_write_call=agg.get("crash_inside_log_write", 0))
+    for f in ("crash-wal-len", "crash-wal-body", "crash-wal-sync", "torn-tail", "recover", "crash-wal-inside-len-write", "crash-wal-inside-body-write"):
         if not feats.get(f):
             raise vlib.Undecided("vacuous: crash point kind '%s' never replayed" % f)
     drift = sum(c["drift"] for c in cov["configs"])
@@ -45,5 +48,5 @@ def run(ctx):
         ctx.note("%d replayed scenarios differ from the specification at the page level only" % drift)
     vlib.write_evidence(ctx, "model_checking", cov, assumptions=[
         "TLC, SANY, CommunityModules", "capacity override 3/3 (hook verifIsFull)",
-        "crash model of the property: the log is cut at the last write() or at the last fsync(); each write() is atomic",
+        "crash model: the log is cut at the last fsync(), at the last write(), or inside the write() under way (its first byte, half of it, all but its last byte reached the file: Store!WalParts)",
         "crash images are composed from the bytes the real code wrote (hooks before Write/Sync in wal.flush)"])
